@@ -131,8 +131,9 @@ Inductive row :=
 | RowNoArgs
     (* handler pattern is literally `name()`; with arguments the line is not this handler's
        (it is dropped or raises elsewhere) - outside what Python accepts, reported as Rejected *)
-| RowSwitch (k : text) (present absent : list entry).
-    (* LCD(...): different handler branch when keyword k is present *)
+| RowSwitch (k : text) (forbidden : list text) (present absent : list entry).
+    (* LCD(...): different handler branch when keyword k is present; that branch raises ValueError when one of
+       the keywords [forbidden] (or any positional argument: the other branch reads positions as pins) is passed *)
 
 Inductive outcome := Rejected | Bound (b : binding).
 
@@ -160,15 +161,17 @@ Definition run_row (r : row) (sh : call_shape) : outcome :=
       | None => run_entries sh es
       end
   | RowNoArgs => match npos sh, kws sh with 0, [] => Bound [] | _, _ => Rejected end
-  | RowSwitch k present absent =>
-      if tmem k (kws sh) then run_entries sh present else run_entries sh absent
+  | RowSwitch k forbidden present absent =>
+      if tmem k (kws sh)
+      then if (0 <? npos sh) || existsb (fun f => tmem f (kws sh)) forbidden then Rejected else run_entries sh present
+      else run_entries sh absent
   end.
 
 Definition row_params (r : row) : list text :=
   match r with
   | Row _ es => map e_param es
   | RowNoArgs => []
-  | RowSwitch _ present _ => map e_param present
+  | RowSwitch _ _ present _ => map e_param present
   end.
 
 (* ------------------------------------------------------------------ the binding table *)
@@ -201,6 +204,10 @@ Definition lcd_parallel : list entry :=
    opt "cols" (kp "cols" 6) (num 16); opt "rows" (kp "rows" 7) (num 2);
    opt "rw" (kw "rw") DNone; opt "backlight_pin" (kw "backlight_pin") DNone;
    opt "i2c_addr" LNever DNone].
+(* the I2C branch raises "LCD parallel pins are not supported in I2C mode" when one of these is passed
+   (before the repair of F-C08-lcd-i2c-parallel-pins it never read them: LCD(i2c_addr=39, rs=31) was accepted and
+   rs dropped) *)
+Definition lcd_parallel_pins : list text := [T "rs"; T "en"; T "d4"; T "d5"; T "d6"; T "d7"; T "rw"].
 Definition lcd_i2c : list entry :=
   [opt "rs" LNever DNone; opt "en" LNever DNone; opt "d4" LNever DNone; opt "d5" LNever DNone;
    opt "d6" LNever DNone; opt "d7" LNever DNone;
@@ -222,7 +229,7 @@ Definition table : list (text * row) := Eval vm_compute in [
                                  opt "max_angle" (kw "max_angle") (num 180); opt "min_pulse_us" (kw "min_pulse_us") (num 544);
                                  opt "max_pulse_us" (kw "max_pulse_us") (num 2400)]);
   (T "DCMotor.__init__", Row None [req "in1" (kp "in1" 0); req "in2" (kp "in2" 1); req "enable" (kp "enable" 2)]);
-  (T "LCD.__init__", RowSwitch (T "i2c_addr") lcd_i2c lcd_parallel);
+  (T "LCD.__init__", RowSwitch (T "i2c_addr") lcd_parallel_pins lcd_i2c lcd_parallel);
   (T "Button.__init__", Row None [req "pin" (kp "pin" 0); opt "on_click" (kp "on_click" 1) DNone]);
   (T "Potentiometer.__init__", Row None [req "pin" (kp "pin" 0)]);
   (T "Ultrasonic.__init__", Row None [req "trig" (kp "trig" 0); req "echo" (kp "echo" 1)]);
@@ -327,10 +334,9 @@ Definition guard := list (list text * list text).
 Definition guard_ok (g : guard) (sh : call_shape) : bool :=
   forallb (fun c => negb (forallb (fun k => tmem k (kws sh)) (fst c) && existsb (fun k => tmem k (kws sh)) (snd c))) g.
 
-Definition guards : list (text * guard) := Eval vm_compute in [
-  (* LCD(i2c_addr=..., <parallel pin>=...): the I2C branch never reads the parallel pins *)
-  (T "LCD.__init__", [([T "i2c_addr"], [T "rs"; T "en"; T "d4"; T "d5"; T "d6"; T "d7"; T "rw"])])
-].
+(* no row carries a guard any more: the last one, LCD(i2c_addr=..., <parallel pin>=...) (the I2C branch never read
+   the parallel pins), went with the repair of F-C08-lcd-i2c-parallel-pins - that combination is rejected now *)
+Definition guards : list (text * guard) := [].
 
 Definition guard_of (m : method) : guard :=
   match tlookup m guards with Some g => g | None => [] end.
